@@ -136,7 +136,7 @@ PROPS = {
         "level": "exploration",
         "units": [
             U("c20", "TestTopology", T(3000, 4, 300), T(60000, 8, 2400)),
-            U("c20", "TestClient", T(6, 12, 400, shrinktime="30s"), T(80, 16, 3000, shrinktime="120s")),
+            U("c20", "TestClient", T(40, 12, 400, shrinktime="30s"), T(600, 16, 3000, shrinktime="120s")),
         ],
     },
     "C12": {
